@@ -14,8 +14,8 @@ Record obs := mk_obs {
 
 (** an injected fault: the pipeline stage at which it is detected
       0 before any file is read (no command, configuration, plugin, no schema)   1 schema parse   2 operation parse
-      3 schema resolve   4 schema check   5 operation extensions   6 operation imports   7 operation check
-      8 generate options / printers   9 command sequence (unknown command, check after another command)
+      3 schema resolve   4 schema check   5 schema check by plugins   6 operation extensions   7 operation imports
+      8 operation check   9 generate options / printers   10 command sequence (unknown command, check after another)
     and the files one of which a diagnostic has to name ([] = not attached to a file) *)
 Record fault := mk_fault { ft_stage : N; ft_files : list str }.
 
@@ -26,7 +26,20 @@ Record spec := mk_spec {
 
 Record case := mk_case { c_proj : proj; c_obs : obs; c_spec : spec }.
 
-Definition subset (a b : list str) : bool := forallb (fun x => existsb (str_eqb x) b) a.
+(** paths are compared after lexical normalisation ("." and ".." segments; the scratch projects have no symbolic
+    links): the CLI lists "root/./out/x.ts" as configured, the directory walk of the harness finds "root/out/x.ts" *)
+Fixpoint norm_segs (segs stack : list str) : list str :=
+  match segs with
+  | [] => rev stack
+  | sg :: r =>
+      if str_eqb sg [] || str_eqb sg [DOT] then norm_segs r stack
+      else if str_eqb sg [DOT; DOT] then norm_segs r (tl stack)
+      else norm_segs r (sg :: stack)
+  end.
+Definition norm_path (p : str) : str := SLASH :: join [SLASH] (norm_segs (split_on SLASH p) []).
+
+Definition subset (a b : list str) : bool :=
+  let nb := map norm_path b in forallb (fun x => existsb (str_eqb (norm_path x)) nb) a.
 Definition set_eqb (a b : list str) : bool := subset a b && subset b a.
 
 (** * agree *)
@@ -185,7 +198,7 @@ Definition located_ok (faults : list fault) (commands : list str) (named : str -
     written is configured output, all of it on success *)
 Definition written_ok (p : proj) (o : obs) (sp : spec) : bool :=
   let gen := existsb (str_eqb GENERATE) (pj_commands p) in
-  let early := existsb (fun f => ft_stage f <=? 7) (sp_faults sp) in
+  let early := existsb (fun f => ft_stage f <=? 8) (sp_faults sp) in
   is_nil (ob_disturbed o)
   && (if negb gen || early then is_nil (ob_written o) else true)
   && subset (ob_written o) (sp_planned sp)
